@@ -204,6 +204,8 @@ class Substitutor(SchemaVisitor[GenericSchema]):
                     pass
                 else:
                     types.append(substituted)
+            if len(types) == 0:
+                raise SubstitutionError(f"Can't substitute {value!r} into any of the types")
         return schema.__class__(schema.props.update(types=tuple(types)))
 
     def visit_bytes(self, schema: BytesSchema, *, value: Any = Nil, **kwargs: Any) -> BytesSchema:
